@@ -1,5 +1,6 @@
 import Driver.OpsConvert
 import TT.Proc
+import TT.Options
 namespace Driver
 open TT TT.Tree
 
@@ -20,6 +21,11 @@ def runOpProc (op : String) (args : List String) : String :=
     | some cs => "|".intercalate ((runHistory fsf {} cs).map fun r => match r with
         | .ok t => encTree t
         | .error e => encErr e)
+  | "options_dict", [opts] =>
+    match (if opts == "" then some [] else (opts.splitOn ",").mapM decS) with
+    | some os => ";".intercalate ((optionsDict os).map fun (k, v) => encS k ++ "=" ++ (match v with
+        | .flag => "T" | .int n => "I" ++ toString n | .str s => "S" ++ encS s))
+    | none => bad
   | "P.C18.eq", [a, b] => if a == b then "ok" else "FAIL results-differ"
   | _, _ => unknownOp
 
